@@ -366,4 +366,28 @@ def R9_synthetic_destination_state(ctx):
     ctx.check(m_ >= 1, "a*:destination-edge-site", "the destination branch of the A* wrapper was not found", ab.where())
 
 
-RULES = [R1_edge_step, R2_units, R3_one_slot, R4_turns, R5_summary, R6_edge_cost_formula, R7_reorient, R8_declared_features, R9_synthetic_destination_state]
+def R10_spliced_route_states(ctx):
+    """C03.R10 a route spliced from two searches continues the state across the junction"""
+    F = ctx.F
+    ctx.rule("C03.R10", "a returned route that is spliced from the results of two searches carries states accumulated over the whole route: the second part is re-traversed from the state at the end of the first (single-via: reorient_reverse_route, C03.R7), because every search starts its own states from StateModel::initial_state; Yen's candidates (root path ++ spur route) need the same", floor=2)
+    K_ = "routee_compass_core::algorithm::search::ksp::"
+    ETF = ET + "::forward_traversal"
+    # single-via: the reverse half goes through reorient_reverse_route (whose re-traversal C03.R7 checks)
+    sb = F.need(K_ + "single_via_paths_algorithm::run")
+    reor = [c for kb in tree_of(F, sb.path) for c in kb.calls() if (c.callee or "").endswith("bidirectional_ops::reorient_reverse_route")]
+    ctx.check(len(reor) >= 1, "single-via:reverse-half-re-traversed", "single-via routes are spliced without re-traversing the reverse half from the forward half's final state", sb.where(), detail="reorient_reverse_route(fwd, rev, si)")
+    # Yen's: root ++ spur
+    yb = F.need(K_ + "yens_algorithm::run")
+    ytm = Terms(yb)
+    spur = [c for c in yb.calls() if c.callee == astar.A + "search_algorithm::SearchAlgorithm::run_vertex_oriented" and innermost_loop(yb, c.bb) is not None]
+    chains = [c for c in yb.calls() if c.callee and itm(c.callee, "chain") and innermost_loop(yb, c.bb) is not None]
+    if len(spur) != 1 or len(chains) != 1:
+        raise AnchorMissing("spur search / root.chain(spur) in yens_algorithm::run")
+    sp = clean(ytm.call_term(spur[0].term, spur[0].bb))
+    tail = clean(ytm.operand(chains[0].args[1], chains[0].bb))
+    retrav = [c for kb in tree_of(F, yb.path) for c in kb.calls() if c.callee in (ETF, ET + "::reverse_traversal") or (c.callee or "").endswith("bidirectional_ops::reorient_reverse_route")]
+    direct = contains(tail, lambda q: q == sp)
+    ctx.check(not direct or bool(retrav), "yens_algorithm::run:spur-states-restart", "a candidate is the root path followed by the spur search's own edge traversals, whose states were accumulated from StateModel::initial_state at the spur vertex: the states (and the summary read from route.last()) of every alternative route restart at the spur vertex instead of continuing the root path's totals", chains[0].where(), detail="spur part re-traversed from root.last().result_state")
+
+
+RULES = [R1_edge_step, R2_units, R3_one_slot, R4_turns, R5_summary, R6_edge_cost_formula, R7_reorient, R8_declared_features, R9_synthetic_destination_state, R10_spliced_route_states]
